@@ -130,12 +130,13 @@ Definition split_z (cs : case_sens) (s : list N) (splitter : option (list N)) (m
   match splitter with
   | None => Abort AbSplitNull
   | Some a =>
-      high <- has_high a ;;
-      let validation := if high then VCheck else VAssume in
-      splitlen <- c_strlen a ;;
-      (* repaired: an empty splitter returns the whole text as one piece *)
-      if Nat.eqb splitlen 0 then Ok [s]
+      (* if (!*splitter) { result.push_back( *this ); return result; } *)
+      c0 <- at_ a O ;;
+      if c0 =? 0 then Ok [s]
       else
+        high <- has_high a ;;
+        let validation := if high then VCheck else VAssume in
+        splitlen <- c_strlen a ;;
         split_loop (split_fuel s)
           (fun next sz => find_sub cs (cstr s) next sz a splitlen)
           (fun from n => string_of_range (cstr s) from n validation)
@@ -145,8 +146,8 @@ Definition split_z (cs : case_sens) (s : list N) (splitter : option (list N)) (m
 (* split(const string &splitter, max_splits, cs) *)
 Definition split_s (cs : case_sens) (s : list N) (splitter : list N) (max_splits : N)
   : outcome (list (list N)) :=
-  (* repaired: an empty splitter returns the whole text as one piece *)
-  if Nat.eqb (length splitter) 0 then Ok [s]
+  (* if (splitter.empty()) { result.push_back( *this ); return result; } *)
+  if size splitter =? 0 then Ok [s]
   else
     split_loop (split_fuel s)
       (fun next sz => find_sub cs (cstr s) next sz (cstr splitter) (length splitter))
